@@ -364,3 +364,61 @@ def run(ctx):
         return Ty('dc', spec=gen_spec(rng, rng.choice((0, 1, 1, 2))))
 
     drive.for_each_case(ctx, 'main', ctx.budget, body, gen=gen, seconds=40)
+
+    # a hook that arrives AFTER the class statement (a class decorator that sets cls.__post_init__, a later assignment, a hook put on a
+    # base that already has subclasses) is the class's hook from then on: it runs for every instance created, on every path
+    def body_late_hook(i, rng, ty, T):
+        import typing as _t
+        frozen = rng.random() < 0.5
+        Base = type(f"LH{next(_serial)}", (env.PaneBase,), {'__annotations__': {'a': int, 'b': _t.List[int]}, 'b': env.pfield(default_factory=list), '__module__': __name__},
+                    frozen=frozen, in_format=('struct', 'tuple'))
+        Sub = type(f"LHS{next(_serial)}", (Base,), {'__annotations__': {'c': int}, 'c': 0, '__module__': __name__})
+        seen = []
+        early = rng.random() < 0.5
+        if early:
+            Base(1)                         # an instance made before the hook exists (whatever is cached now must not outlive the assignment)
+            Base.from_data({'a': 1})
+
+        def hook(self):
+            seen.append(('first', id(self)))
+            if self.a < 0:
+                raise ValueError('a must not be negative')
+
+        def hook2(self):
+            seen.append(('second', id(self)))
+        target = rng.choice((Base, Sub))
+        on_base_for_sub = target is Sub and rng.random() < 0.5
+        (Base if on_base_for_sub else target).__post_init__ = hook
+        paths = [('ctor', lambda: target(1)), ('ctor-kw', lambda: target(a=2)), ('make_unchecked', lambda: target.make_unchecked(3)), ('data-mapping', lambda: target.from_data({'a': 4})),
+                 ('data-sequence', lambda: target.from_data([5])), ('from_dict_unchecked', lambda: target.from_dict_unchecked({'a': 6, 'b': []})),
+                 ('replace', lambda: target(7).__replace__(a=8)), ('copy', lambda: copy.copy(target(9))), ('convert', lambda: env.convert({'a': 10}, target))]
+        rng.shuffle(paths)
+        for pname, call in paths:
+            del seen[:]
+            o = observe(call)
+            ctx.count('late_hook_paths_checked')
+            ctx.case(('late-hook', pname, early, on_base_for_sub, o.kind), nontrivial=True)
+            ran = [tag for tag, ident in seen if o.kind == 'value' and ident == id(o.val)]
+            if o.kind != 'value' or ran != ['first']:
+                ctx.violation('post_init-once-per-instance', 'late-hook', i, {'hook_assigned': 'after the class statement' + (' (on the base of the class used)' if on_base_for_sub else ''),
+                                                                             'instances_existed_before': early, 'path': pname, 'outcome': o.brief()[:200], 'hook_runs_for_the_new_instance': ran},
+                              mech=f"{pname}:late-hook-not-run")
+                return
+        bad = observe(lambda: target.from_data({'a': -1}))
+        badc = observe(lambda: target(-1))
+        if bad.kind != 'converr' or badc.kind == 'value':
+            ctx.violation('post_init-failure-is-ConvertError-with-cause', 'late-hook', i, {'data_path': bad.brief()[:200], 'constructor': badc.brief()[:200]}, mech='late-hook-failure-ignored')
+            return
+        # replaced later: the new one runs, the old one does not
+        (Base if on_base_for_sub else target).__post_init__ = hook2
+        for pname, call in paths[:4]:
+            del seen[:]
+            o = observe(call)
+            ran = [tag for tag, ident in seen if o.kind == 'value' and ident == id(o.val)]
+            ctx.count('late_hook_paths_checked')
+            if o.kind != 'value' or ran != ['second']:
+                ctx.violation('post_init-once-per-instance', 'late-hook', i, {'hook_replaced': 'a second assignment', 'path': pname, 'outcome': o.brief()[:200], 'hooks_run': ran},
+                              mech=f"{pname}:stale-hook-run")
+                return
+
+    drive.for_each_case(ctx, 'late-hook', 30, body_late_hook, gen=lambda c, r: Ty('int'))
